@@ -1,13 +1,14 @@
 CONSTANTS
   NTags = 2
   NCallers = 1
+  NChan = 1
   PNames <- MC_PNames
   ANames <- MC_ANames
   PRates <- MC_PRates
   ARates <- MC_ARates
   MaxFrames = 2
   MaxPts = 2
-  MaxCh = 1
+  MaxCh = 2
   FrameKinds <- MC_FrameKinds
   ColKinds <- MC_ColKinds
   Tags <- MC_Tags
